@@ -233,6 +233,8 @@ type Machine struct {
 	dom           map[string]*byteDom
 	multi         map[string]bool
 	domDecided    int
+	varBound      map[string]int
+	syncMaps      map[*Cell]*MapObj
 	prefix        []int
 	pos           int
 	spawn         [][]int
@@ -355,6 +357,8 @@ func (m *Machine) resetPath(prefix []int) {
 	m.pc = nil
 	m.pcIndex = nil
 	m.dom = nil
+	m.varBound = nil
+	m.syncMaps = nil
 	m.multi = nil
 	m.pcSat = true
 	m.prefix = append([]int(nil), prefix...)
